@@ -159,6 +159,22 @@ CLAIMED["C07"] = dict(
     note=NOTE + "Partial: unreadable/unwritable paths and other OS failures (which exit 1 without a diagnostic by design) are outside the model.",
 )
 
+CLAIMED["C02"] = dict(
+    text="Part 1 (per statement kind, over the regenerated size= table): the sizes .byte/.word/.dword announce for 0-64 operands are "
+         "max(n,1), 2*max(n,1), 4*max(n,1) (complete evaluation), these and the side-effect directives are the only ones that announce a "
+         "size (so .include, .repeat, insert_file, .ascii, .blkb, .even, .align use their chunk's own length), and whenever the value-level "
+         "model of .byte/.word/.dword/word list produces bytes without reporting an error they are exactly as many as announced "
+         "(induction over operand lists). Part 2 (any sequence of statements): if every announced size is the length of the produced "
+         "bytes then every statement's address is base + bytes before it, the image at that address is the statement's bytes, a label "
+         "gets the address of the following byte and the image length is the sum of the sizes (induction). Tie: the PDPY11_VERIF hook "
+         "trace checked model-free on generated programs (forward-known sizes, repeats, includes, inserted files, 1-3 files, random "
+         "bases) and on the 21 practice programs; the same programs assembled by the whole-program Lean model (image, base, errors).",
+    design_ref="DESIGN.md §5 C02",
+    technique="Lean 4 theorems (decide +kernel on the regenerated size table, induction over statement lists) + hook-trace invariant + whole-program model/implementation correspondence",
+    note=NOTE + "The whole-program model (Model/Asm.lean) is executable and compared with the code on every run, but its recursive evaluator is "
+         "'partial': the layout theorem is about abstract statement lists whose sizes satisfy part 1, not about that evaluator.",
+)
+
 PENDING_REASON = "check not built yet (build in progress; see DESIGN.md §8 for the order)"
 
 
